@@ -198,7 +198,7 @@ func vC10Seq(kind int, K int) {
 	if kind == vsReplay || kind == vsUnicast {
 		if vChoice("unlimited", 2) == 0 {
 			bufSize = vInt64("buf")
-			vAssume(bufSize >= 1)
+			vAssume(bufSize >= 0) // replay 0: a late subscriber gets nothing of the past
 			vAssume(bufSize <= 3)
 		}
 	}
